@@ -58,12 +58,12 @@ def run(ctx):
         ctx.violation("proof-broken", {"theorem": "props/C01.v", "log": log[-3000:]}, "props/C01.v no longer checks", no_input=True)
         return
     lib.coq_make(["theories/Search.vo"])
-    n_prog = ctx.pick(40, 400)
+    n_prog = ctx.pick(48, 400)
     N = ctx.pick(5, 7)
     progs = lib.replay_programs(ctx) or (list(gen.corpus()) + [(p, g, t) for p, g, t, _ in gen.abstraction_corpus()])
     abs_sup = {P.prog_text(p): s for p, _, _, s in gen.abstraction_corpus()}
     while len(progs) < n_prog and not ctx.replay:
-        g = gen.G(ctx.rng, max_depth=ctx.rng.choice([1, 2]))
+        g = gen.G(ctx.rng, max_depth=ctx.rng.choice([1, 2]), rational=(len(progs) % 4 == 3))
         p = g.program()
         progs.append((p, g.goals(2), "+".join(sorted(g.features))))
     tasks = [{"kind": "analyze", "text": P.prog_text(p), "goals": [gen.goal_text(m) for m in goals], "nvals": N + 1,
